@@ -6,7 +6,7 @@ from core import call_matches, op_place, op_local, backward_slice
 from props import shared
 
 LEVEL = 'proof'
-FLOOR = 45
+FLOOR = 76      # 70% of the 109 obligation instances derived on the tree the rules were last reviewed against
 EXPLANATION = ('Decided on all MIR paths: a transaction is published to the commit overlay and queued under one write guard; a log record '
                'enters the log overlay under one guard after being appended; entries leave a layer only after entering the next one and only '
                'by owner id; readers consult commit overlay -> log overlay -> file with the overlay read lock held; table bytes are written '
